@@ -63,6 +63,23 @@ var props = []PropSpec{
 			{Func: "Check_Fidelity", Reach: []string{"refused-at-send", "transmitted-faithfully"}, Bounds: "IPv4 element with address of 0,3,4,5,16 bytes; IPv6 element with 0,3,4,15,16,17 bytes; MAC of 0..8 bytes; fixed 5-byte octet array of 0..7 bytes; all bytes symbolic"},
 		},
 	},
+	{
+		ID: "C03", Pkg: "./c03", ReplayPkg: "./cmd/rc03", Level: "model_checking",
+		Assumptions: append([]string{
+			"totality is an engine outcome: any uncaught Go panic, any path exceeding the instruction budget (2M SSA instructions for a packet of at most 44 bytes) or the allocation budget is reported as a violation (panic / hang)",
+			"exactness oracle: the reference data-set parser of DESIGN.md appendix C (records while at least a minimum record fits; leftover shorter than the minimum record is padding; a record cut mid-field is an error; a template whose records are empty may only yield no records)",
+			"the library decodes one set spanning the rest of the packet and ignores the message/set length fields; the oracle does the same (the statement's 'received set body' is the bytes after the set header)",
+			"template-set packets: each field specifier's (element id, enterprise) pair is assumed to lie in a pool of 11 pairs (known IANA/Antrea/reverse/user elements, unknown IANA id, unknown enterprise, element of unsupported type); lengths, field count, enterprise bit and truncation point are unconstrained",
+		}, codecAssumptions...),
+		Harnesses: []HarnessSpec{
+			{Func: "Check_DataPacket", Reach: []string{"error", "message", "records", "two-records", "refused-for-cause"},
+				Tune: func(c *sym.Config, th bool) { c.HangIsViolation = true; c.InstrBudget = 2_000_000; c.AllocLimit = 200_000 },
+				Bounds: "every byte of the packet symbolic (header, set header, body); packet length 0..20+B with B = 12 (quick) / 24 (thorough) for fixed-width templates and 6 / 9 for templates with a variable-length field; templates: zero fields, each of 14 single-field shapes (incl. unknown elements of length 0, 3, variable), 11 (quick) / 36 pairs + 64 triples (thorough) multi-field layouts; x 3 decoding modes"},
+			{Func: "Check_TemplatePacket", Reach: []string{"error", "message", "zero-fields", "one-field", "several-fields", "invalidated-or-other-key"},
+				Tune: func(c *sym.Config, th bool) { c.HangIsViolation = true; c.InstrBudget = 2_000_000; c.LazyMake = true; c.AllocLimit = 200_000 },
+				Bounds: "set id 2, version 10 assumed; every other byte symbolic; packet length 16..20+B, B = 12 (quick) / 20 (thorough); x 3 decoding modes x {no older template, older template for (7,300)}; 16-bit field count kept symbolic through a lazily sized slice"},
+		},
+	},
 }
 
 var _ = sym.Config{}
